@@ -529,8 +529,8 @@ var propFalsifiers = map[string]func(w *World, fn *ssa.Function, r vcResult) *Co
 	"C15": cliFalsifier,
 	"C08": semverFalsifier,
 	"C09": pep440Falsifier,
-	"C02": rangeFalsifier,
-	"C20": orderFalsifier,
+	"C02": rangeOpsFalsifier,
+	"C20": orderPosFalsifier,
 	"C14": apkFalsifier,
 	"C10": func(w *World, fn *ssa.Function, r vcResult) *Counterexample { return refOrderFalsifier(w, "C10") },
 	"C11": func(w *World, fn *ssa.Function, r vcResult) *Counterexample { return refOrderFalsifier(w, "C11") },
@@ -1304,6 +1304,34 @@ func verifEnum(alpha string, maxLen int) []string {
 func TestVerifReplay(t *testing.T) {
 	strs := %s
 	strs = append(strs, verifEnum("1.0a-~^*[(,) <>=|!v+_:x", 3)...)
+	// multi-byte runes, invalid UTF-8 and NUL between and after ordinary version characters
+	{
+		toks := []string{"1", ".", "0", "a", "-", "\u00e9", "\u65e5", "\U0001F600", "\xff", "\x00", "rc", "+"}
+		cur := []string{""}
+		for l := 1; l <= 4; l++ {
+			var nx []string
+			for _, p := range cur {
+				for _, t := range toks {
+					nx = append(nx, p+t)
+				}
+			}
+			for _, x := range nx {
+				multi := false
+				for i := 0; i < len(x); i++ {
+					if x[i] >= 0x80 || x[i] == 0 {
+						multi = true
+					}
+				}
+				if multi {
+					strs = append(strs, x, "1.0-"+x, "["+x+",2.0]", ">="+x)
+				}
+			}
+			cur = nx
+			if l == 3 {
+				cur = nx[:len(nx)/4]
+			}
+		}
+	}
 	strs = append(strs, "\x00", "\xff\xfe", "1.0\x00", "é", "１.０", "[", "]", "(,)", "[,]", "[1.0", "1.0]", ">=", "^", "~", "~>", "||", " || ", ",", "1.0 - ", " - 2.0", "!=", "==", "===", "vers:", "@stable", "dev-", "1.x", "x", "*", "=*")
 	e := &Ecosystem{}
 	try := func(what, in string, f func()) (ok bool) {
